@@ -133,6 +133,24 @@ func exTlbEnc(a []string) string {
 	return "ok " + tlbx.CellText(c)
 }
 
+// tlb.canon <GoType> <ty> <env> <table> <class>: the class the Go code finds now (decode, re-encode, compare hashes)
+func exTlbCanon(a []string) string {
+	tt := tlbLookup(a[0])
+	c := h.BuildCells(h.ParseTable(a[3]))[0]
+	_, class := reDecode(tt, c)
+	return "ok " + class
+}
+
+// tlb.canoninfo <GoType> <ty> <env> <table>: `canonical` iff the Go code reproduces the hash of the cell
+func exTlbCanonInfo(a []string) string {
+	tt := tlbLookup(a[0])
+	c := h.BuildCells(h.ParseTable(a[3]))[0]
+	if _, class := reDecode(tt, c); class == "same-hash" {
+		return "ok canonical"
+	}
+	return "ok noncanonical"
+}
+
 // tlb.dec <GoType> <ty> <env> <table> → ok <val> | err
 func exTlbDec(a []string) string {
 	tt := tlbLookup(a[0])
